@@ -76,7 +76,7 @@ pub fn compare_abstract(doc: &Document, want: &AObjects, trailer_extra: &Diction
     }
     for (id, o) in &doc.objects {
         if !want.contains_key(id) {
-            let helper = id.0 >= helper_from && (matches!(o, Object::Integer(_)) || matches!(o, Object::Stream(s) if s.dict.has_type(b"ObjStm") || s.dict.has_type(b"XRef")));
+            let helper = (id.0 >= helper_from || crate::refwriter::LOW_HELPER_IDS.with(|l| l.borrow().contains(&id.0))) && (matches!(o, Object::Integer(_)) || matches!(o, Object::Stream(s) if s.dict.has_type(b"ObjStm") || s.dict.has_type(b"XRef")));
             if !helper { return Some(("extra-object".into(), format!("unexpected object {:?} = {}", id, show_obj(o).chars().take(80).collect::<String>()))); }
         }
     }
